@@ -563,3 +563,7 @@ PROPS["C19"]["level_text"] += (" The order of semaphore and queue operations the
 
 # C07: name reuse after disconnects is dense in the churn histories (same-name reconnects, failing notifications)
 PROPS["C07"]["suites"]["churn"] = dict(CHURN_SUITE["churn"], projection=PROPS["C07"]["suites"]["srv"]["projection"], oracle_tags=["C07"], depends=STATE_DEPENDS)
+
+
+# C07 (identities cannot be forged): what the modulator is told about the sender of a client's MOD_DIRECT (direct suite oracle)
+PROPS["C07"]["suites"]["direct"] = dict(PROPS["C17"]["suites"]["direct"], oracle_tags=["C07"])
